@@ -1054,8 +1054,13 @@ func SexpToGoStructs(
 		targVa.Elem().Set(reflect.ValueOf(src.Dur))
 	case *SexpBool:
 		targVa.Elem().Set(reflect.ValueOf(src.Val))
+	case *SexpUint64:
+		if k := targVa.Elem().Kind(); k >= reflect.Uint && k <= reflect.Uint64 && targVa.Elem().OverflowUint(src.Val) {
+			panic(fmt.Errorf("unsigned integer %d overflows a field of type %v", src.Val, targVa.Elem().Type()))
+		}
+		targVa.Elem().SetUint(src.Val)
 	default:
-		fmt.Printf("\n error: unknown type: %T in '%#v'\n", src, src)
+		panic(fmt.Errorf("SexpToGoStructs: no conversion to Go for %T", src))
 	}
 	return target, nil
 }
